@@ -59,6 +59,20 @@ def ref_merge(snap):
     return [out[i] for i in order], False
 
 
+def fresh(v):
+    """An equal label that is a DIFFERENT object (labels parsed from files are: two records of one card never share the
+    object): equality, not identity, is what makes two labels 'the common tally pool'."""
+    if isinstance(v, str) and len(v) > 1:
+        return "".join(list(v))
+    if isinstance(v, bool) or v is None:
+        return v
+    if isinstance(v, int) and abs(v) > 256:
+        return int(str(v))
+    if isinstance(v, (list, tuple)):
+        return tuple(fresh(x) for x in v)
+    return v
+
+
 def snapshot(cvr_list):
     return [{"id": c.id, "votes": copy.deepcopy(c.votes), "phantom": c.phantom, "pool": c.pool,
              "tally_pool": c.tally_pool} for c in cvr_list]
@@ -126,7 +140,7 @@ def gen_records(rng):
     if mode == "interleaved":
         rng.shuffle(seq)
     # labels include falsy-but-not-None values (batch number 0, empty string): None alone means "unknown"
-    pools_for = {i: rng.choice((None, "p1", "p1", "p2", 0, "", 1)) for i in ids}
+    pools_for = {i: rng.choice((None, "p1", "p1", "p2", 0, "", 1, 1000, "precinct-17/batch-3")) for i in ids}
     conflict_ids = set(i for i in ids if rng.random() < 0.12)
     # a quarter of the lists build their records from a few template dicts: records of DIFFERENT cards then hold the very
     # same votes object (or, for an empty selection, no votes argument at all: the constructor's default)
@@ -218,7 +232,7 @@ def run_case(case, rec):
         for r in recs:
             if "_tmpl" not in r:
                 cvrs.append(CVR(id=r["id"], votes=copy.deepcopy(r["votes"]), phantom=r["phantom"], pool=r["pool"],
-                                tally_pool=r["tally_pool"]))
+                                tally_pool=fresh(r["tally_pool"])))
             elif not r["votes"]:
                 cvrs.append(CVR(id=r["id"], phantom=r["phantom"], pool=r["pool"], tally_pool=r["tally_pool"]))
             else:
